@@ -74,6 +74,7 @@ class Names:
     """identifier and type choices (C06 renames them; results must not change)"""
     def __init__(self, var=lambda n: f"v{n}", rel=lambda r: f"r{r}", ity="i64", const=lambda n: str(n)):
         self.var, self.rel, self.ity, self.const = var, rel, ity, const
+        self.at_patterns = False      # print `if let Some(v) = e` as `if let at_v @ Some(v) = e` (an `ident @ subpattern` binding whose identifier nobody reads)
 
 def col_types(p, r, nm):
     d = p["rels"][r]
@@ -125,7 +126,8 @@ def rs_cond(c, sc, nm):
     if c[0] == "let":
         s = f"let {nm.var(c[1])} = {rs_ex(c[2], sc, nm)}"; sc.bind(c[1], "val", "int"); return s
     if c[0] == "iflet":
-        s = f"if let Some({nm.var(c[1])}) = {rs_ex(c[2], sc, nm) if c[2] != 'none' else 'None::<i64>'}"; sc.bind(c[1], "val", "int"); return s
+        at = f"at_{nm.var(c[1])} @ " if getattr(nm, "at_patterns", False) else ""
+        s = f"if let {at}Some({nm.var(c[1])}) = {rs_ex(c[2], sc, nm) if c[2] != 'none' else 'None::<i64>'}"; sc.bind(c[1], "val", "int"); return s
     raise ValueError(c)
 
 def rs_rule(p, r, nm):
